@@ -16,3 +16,16 @@ def build(reg):
                  "opened for writing is complete once closed after pickle.dump returned",
                  "pickle.load of a complete snapshot succeeds (pickle round trip, A4)"],
     )
+
+
+# negative controls (thorough tier): (name, file, old text, new text)
+CONTROLS = [('rename the old snapshot away first (the repaired defect)',
+  'emu_mps/mps_backend_impl.py',
+  '        os.replace(basename.with_suffix(".new"), basename)',
+  '        if basename.is_file():\n'
+  '            os.rename(basename, basename.with_suffix(".bak"))\n'
+  '        os.rename(basename.with_suffix(".new"), basename)'),
+ ('write the snapshot directly under the advertised name',
+  'emu_mps/mps_backend_impl.py',
+  'with open(basename.with_suffix(".new"), "wb") as file_handle:',
+  'with open(basename, "wb") as file_handle:')]
